@@ -25,6 +25,7 @@ type chunk struct {
 // scriptBackend returns the scripted chunks one Read at a time and io.EOF when
 // the script is exhausted. Writes are recorded; optional write script.
 type scriptBackend struct {
+	afterEnd   int // consecutive reads after the script ran out
 	script    []chunk
 	delivered int
 	reads     int
@@ -43,8 +44,15 @@ var errInjected = errors.New("injected")
 func (b *scriptBackend) Read(p []byte) (int, error) {
 	b.reads++
 	if len(b.script) == 0 {
+		// a loop that keeps reading after the backend reported the end never stops (C16, C01)
+		b.afterEnd++
+		if b.afterEnd > 2000 {
+			b.afterEnd = 0
+			panic("backend read again and again after it reported EOF or an error: the read loop does not stop")
+		}
 		return 0, io.EOF
 	}
+	b.afterEnd = 0
 	c := &b.script[0]
 	n := copy(p, c.data)
 	c.data = c.data[n:]
@@ -373,7 +381,9 @@ func (im *impl) consumed() int { return im.be.delivered - im.vt.Buffered() }
 // obs renders the canonical observation block (same text as the Lean driver).
 type obsBlock struct {
 	G, M, A, V, E, W string
-	rows             map[string]string // "b y" -> cells
+	L                string // rows announced through ScrollLines during the step
+	rows             map[string]string // "b y" -> cells (changed rows only, unless full)
+	all              map[string]string // every row
 	X                string            // framing note (driver only)
 }
 
@@ -410,12 +420,18 @@ func (im *impl) observe(full bool) (obsBlock, te.VerifSnap) {
 	}
 	o.V = fmt.Sprintf("V %s %s %s", vf.String(), strings.Join(vi, " "), strings.Join(vs, " "))
 	var es []string
+	scrolled := 0
 	for _, e := range im.fe.events[im.evMark:] {
 		switch e.kind {
 		case "b", "s", "f", "i", "t":
 			es = append(es, e.s)
+		case "l":
+			var k int
+			fmt.Sscanf(e.s, "l:%d", &k)
+			scrolled += k
 		}
 	}
+	o.L = fmt.Sprintf("L %d", scrolled)
 	im.evMark = len(im.fe.events)
 	if len(es) == 0 {
 		o.E = "E -"
@@ -431,13 +447,15 @@ func (im *impl) observe(full bool) (obsBlock, te.VerifSnap) {
 		}
 	}
 	o.rows = map[string]string{}
+	o.all = map[string]string{}
 	hMain := len(snap.Screens[0].Rows)
 	for i, r := range rows {
+		b, y := 0, i
+		if i >= hMain {
+			b, y = 1, i-hMain
+		}
+		o.all[fmt.Sprintf("%d %d", b, y)] = r
 		if full || len(im.lastRows) != len(rows) || im.lastRows[i] != r {
-			b, y := 0, i
-			if i >= hMain {
-				b, y = 1, i-hMain
-			}
 			o.rows[fmt.Sprintf("%d %d", b, y)] = r
 		}
 	}
